@@ -119,7 +119,7 @@ func genC17(rt *rapid.T) *FmtCase {
 			c.Reg = append(c.Reg, k)
 		}
 	}
-	fc := &fmtConfig{noStar: true, noW: true}
+	fc := &fmtConfig{noStar: true, noW: true, noHugeNumbers: true}
 	switch rapid.IntRange(0, 5).Draw(rt, "route") {
 	case 0:
 		// (one operand: Sprint's separator depends on whether neighbouring
